@@ -459,6 +459,5 @@ def op_sequences(vc):
 # derive_comments_from_config / derive_auth_blocks_from_config catch exactly these two classes, any other escapes half-way
 # and leaves comments of an earlier configuration behind
 from pyvc.harness import reuse as _reuse
-from contracts import C12 as _C12x  # noqa: E402,F401
 _reuse("C12/create_from_prj_settings", "C11/create_from_prj_settings.id-or-its-own-missing-error")
 _reuse("C12/create_from_dev_settings", "C11/create_from_dev_settings.id-or-its-own-missing-error")
